@@ -124,7 +124,19 @@ func (sr *StreamReader) read(bs []byte) (int, error) {
 }
 
 func (sr *StreamReader) discardSeek(n int64) error {
-	_, err := sr._seeker.Seek(n, io.SeekCurrent)
+	if n <= 0 {
+		return nil
+	}
+
+	// Seeking past the end of the input succeeds. Seek up to the last byte
+	// being discarded and read that one, so that input which ends early is
+	// reported here: otherwise skipping a collection element by element
+	// would run for as long as its declared length says, whatever the
+	// length of the input.
+	if _, err := sr._seeker.Seek(n-1, io.SeekCurrent); err != nil {
+		return err
+	}
+	_, err := sr.read(sr.buffer[:1])
 	return err
 }
 
